@@ -2,6 +2,22 @@
   Property C03 — a saved package is a conforming ODF zip container with a truthful manifest.
   Theorems about `OdfModel.Pkg.save` (model of `__zipwrite`, `_saveXmlObjects`, `_savePictures`) and
   `OdfModel.Pkg.load`; tied to odf/opendocument.py by the correspondence run of harness/c03.py.
+
+  Main theorems (all for object trees of any nesting depth, by mutual induction over Doc / List Doc):
+    mimetype_first              first entry = ("mimetype", stored, no extra, utf8 of the media type)
+    required_members            content.xml, styles.xml, meta.xml, META-INF/manifest.xml are members
+    manifest_exact_ordered      member names = mimetype :: (paths of the manifest's file entries, same order) ++ [manifest]
+    manifest_exact              … hence a permutation of the names minus mimetype and the manifest (multiset)
+    folder_entries              which entries are folder entries: "/", every object folder, "Thumbnails/", None-extras
+    folder_iff_slash  [DocOK]   … and these are exactly the manifest paths ending in "/"
+    root_and_object_mediatypes  "/" carries the document's media type, every object folder its object's
+    parts_present               every object's styles/content/(settings).xml under its folder, holding its own part
+    pictures_present            every registered picture under folder ++ href, stored, its bytes, its media type
+    names_nodup       [DocOK]   no member name twice
+    manifest_nodup    [DocOK]   no manifest path twice (exactly one root entry)
+    register_nodup              the registry is a dict: hrefs pairwise distinct by construction
+    load_docOK_partial [LoadClean]  what `load` guarantees of DocOK; the full statement is false:
+    finding_root_entry_twice_after_load, finding_reserved_name_twice_after_load, not_loadedSavesClean
 -/
 import OdfModel.Pkg
 namespace OdfModel.Props.C03
